@@ -3,7 +3,8 @@
 # Uses SFV_REPO (a detached worktree) so that /repo itself is never modified while other work is going on.
 set -u
 seed="$1"; pid="$2"; tier="${3:-quick}"
-wt="${SFV_SEED_WT:-/work/int/repo2}"
+wt="${SFV_SEED_WT:-/tmp/sfv-seed-wt-run}"
+[ -d "$wt" ] || git -C /repo worktree add -q --detach "$wt" HEAD   # scratch worktree, removed again at the end
 here="$(cd "$(dirname "${BASH_SOURCE[0]}")/.." && pwd)"
 git -C "$wt" checkout -q -- . && git -C "$wt" clean -fdq
 git -C "$wt" checkout -q --detach "$(git -C /repo rev-parse HEAD)"
@@ -13,4 +14,5 @@ git -C "$wt" checkout -q -- . && git -C "$wt" clean -fdq
 # restore generated Lean files to the clean tree's version
 git -C "$here" checkout -q -- lean/SFV/Gen
 echo "seed $seed on $pid -> exit $rc"
+[ -n "${SFV_SEED_KEEP_WT:-}" ] || git -C /repo worktree remove --force "$wt" 2>/dev/null
 exit $rc
